@@ -67,7 +67,7 @@ type overlapView struct {
 // period (three more rounds with nothing changing) A's successor list must be
 // exactly its true successors in ring order. Returns the number of rounds run
 // and of rounds in which the overlapping rounds really saw different views.
-func overlappingStabilizeRounds(seed int64, rounds int) (problem string, replay map[string]any, done, split int) {
+func overlappingStabilizeRounds(seed int64, rounds int, withLookups ...bool) (problem string, replay map[string]any, done, split int) {
 	const (
 		aID    = uint64(1000)
 		midID  = uint64(1500)
@@ -153,6 +153,30 @@ func overlappingStabilizeRounds(seed int64, rounds int) (problem string, replay 
 	}
 	// bounded by the round count; the wall-clock cap only keeps a loaded machine or the race
 	// detector from eating the whole budget (the evidence reports the rounds actually run)
+	// C09 runs the same stress with two goroutines that keep asking A for identifiers beyond its
+	// successor (A has never repaired its fingers: no finger precedes them) while its successor
+	// list is rewritten; a round that does not finish within 20 s is reported with the prefix
+	// "lookup-hang:"
+	var stopLookups atomic.Bool
+	var lookups atomic.Int64
+	if len(withLookups) > 0 && withLookups[0] {
+		for g := 0; g < 2; g++ {
+			go func(g int) {
+				for k := uint64(0); !stopLookups.Load(); k++ {
+					// (midID, headID]: beyond the successor whenever the node between A and head is a
+					// member, and not preceded by any finger (they name head or nodes behind it);
+					// every third lookup is for an identifier far beyond the whole neighbourhood
+					key := midID + 1 + (k*7+uint64(g))%(headID-midID)
+					if k%3 == 2 {
+						key = (1<<40 + k*977) & ringMax
+					}
+					a.Node.FindSuccessor(key)
+					lookups.Add(1)
+				}
+			}(g)
+		}
+		defer stopLookups.Store(true)
+	}
 	t0 := time.Now()
 	for i := 0; i < rounds && (i%1024 != 0 || time.Since(t0) < 4*time.Minute); i++ {
 		older, newer := genView(), genView()
@@ -184,16 +208,47 @@ func overlappingStabilizeRounds(seed int64, rounds int) (problem string, replay 
 				a.Node.VerifStabilize()
 			}()
 		}
-		wg.Wait()
+		if len(withLookups) > 0 && withLookups[0] {
+			fin := make(chan struct{})
+			go func() { wg.Wait(); close(fin) }()
+			select {
+			case <-fin:
+			case <-time.After(20 * time.Second):
+				n := lookups.Load()
+				time.Sleep(500 * time.Millisecond)
+				return fmt.Sprintf("lookup-hang: round %d: %d stabilization rounds of node %d did not finish within 20 s while two goroutines look up identifiers beyond its successor through it (lookups answered so far: %d, in the last 0.5 s: %d)", i, workers, aID, n, lookups.Load()-n),
+					map[string]any{"seed": seed, "round": i, "lookups_answered": n}, done, split
+			}
+		} else {
+			wg.Wait()
+		}
 		if calls.Load()-base >= flip.Load()-base+1 {
 			split++
 		}
 		cur.Store(newer) // if a round skipped head (mid known), the change still becomes visible now
-		for q := 0; q < 3; q++ {
-			a.Node.VerifStabilize()
+		var got []uint64
+		quiet := func() {
+			for q := 0; q < 3; q++ {
+				a.Node.VerifStabilize()
+			}
+			got = vids(a.Node.VerifSuccessors())
+		}
+		if len(withLookups) > 0 && withLookups[0] {
+			fin := make(chan struct{})
+			go func() { quiet(); close(fin) }()
+			select {
+			case <-fin:
+			case <-time.After(20 * time.Second):
+				n := lookups.Load()
+				time.Sleep(500 * time.Millisecond)
+				return fmt.Sprintf("lookup-hang: round %d: the stabilization rounds of node %d after the membership change did not finish within 20 s while two goroutines look up identifiers beyond its successor through it (lookups answered so far: %d, in the last 0.5 s: %d)", i, aID, n, lookups.Load()-n),
+					map[string]any{"seed": seed, "round": i, "lookups_answered": n}, done, split
+			}
+		} else {
+			quiet()
 		}
 		done++
-		got, exp := vids(a.Node.VerifSuccessors()), want(newer)
+		exp := want(newer)
 		if fmt.Sprint(got) != fmt.Sprint(exp) {
 			replay = map[string]any{"seed": seed, "round": i, "workers": workers, "older_view": want(older), "final_view": exp, "got": got,
 				"schedule": fmt.Sprintf("%d stabilization rounds of node %d overlap while the membership behind it changes from %v to %v; then three more rounds with nothing changing", workers, aID, want(older), exp)}
